@@ -17,6 +17,19 @@ func trimMultipleLineFeeds(lines string) string {
 	return multiLineFeedRegex.ReplaceAllString(lines, replace)
 }
 
+// A line feed inside a string literal is part of the program, not of the layout.
+// While the text is laid out (indentation, trimming, empty line squeezing) it is
+// replaced by this placeholder (NUL never reaches a token literal) and Format() restores it.
+const stringLineFeed = "\x00"
+
+func protectLineFeeds(literal string) string {
+	return strings.ReplaceAll(literal, "\n", stringLineFeed)
+}
+
+func restoreLineFeeds(formatted []byte) []byte {
+	return bytes.ReplaceAll(formatted, []byte(stringLineFeed), []byte("\n"))
+}
+
 // Calculate indent strings from configuration
 func indent(conf *config.FormatConfig, level int) string {
 	c := " " // default as whitespace
